@@ -66,8 +66,10 @@ Ctx(case, k) ==
 Consider(case, st, k) ==
   LET file == case.file  N == Len(file)  line == file[k + 1]  ctx == Ctx(case, k) IN
   IF k = N - 1 /\ line = <<>> THEN \* the path is frozen first, so a Matcher built only now cannot initialise variables any more
-       [st |-> DoLasts(1, [st EXCEPT !.frozen = TRUE, !.built = TRUE, !.line = <<>>,
-                                    !.memo = [j \in 1..Len(ctx.comps) |-> "n"]], ctx),
+       \* ... and this way out of Matcher.matches hands the pending errors to the handler like every other (Eval!Flush)
+       [st |-> Flush([matched |-> FALSE,
+                      st |-> DoLasts(1, [st EXCEPT !.frozen = TRUE, !.built = TRUE, !.line = <<>>,
+                                                   !.memo = [j \in 1..Len(ctx.comps) |-> "n"]], ctx)], ctx).st,
         ret |-> FALSE, kind |-> "blanklast"]
   ELSE IF line = <<>> THEN [st |-> st, ret |-> FALSE, kind |-> "blank"]
   ELSE IF ~In(case.prog.scan, k) THEN [st |-> st, ret |-> FALSE, kind |-> "unscanned"]
